@@ -36,6 +36,8 @@ type GenOpts struct {
 	// listed known finding); Capped counts how often that happened.
 	CapBits int
 	Capped  *int
+	// ClampBits > 0 keeps every drawn amount below 2^ClampBits.
+	ClampBits int
 }
 
 func defaultWeights() map[string]int {
@@ -69,6 +71,15 @@ func pow2(n uint) *big.Int { return new(big.Int).Lsh(big.NewInt(1), n) }
 
 // drawAmount draws an amount biased to the boundaries around `avail` (which may be nil/0).
 func drawAmount(t *rapid.T, g *GenOpts, avail *big.Int, label string) *big.Int {
+	v := drawAmount0(t, g, avail, label)
+	if g.ClampBits > 0 && v.BitLen() > g.ClampBits {
+		// keep the whole history below the overflow domain of a listed finding (C11)
+		v = new(big.Int).Add(new(big.Int).Mod(v, pow2(uint(g.ClampBits))), big.NewInt(1))
+	}
+	return v
+}
+
+func drawAmount0(t *rapid.T, g *GenOpts, avail *big.Int, label string) *big.Int {
 	if pct(t, g.ExtremePct, label+"-extreme?") {
 		g.lastExtreme = true
 		if g.CapBits > 0 {
